@@ -111,7 +111,12 @@ func VerifHarness_C16_Spellings() {
 // positive; absent step => default step max(1s, floor((end-start)/250) s).
 func VerifHarness_C16_Step() {
 	t0 := vsymTimeNs(1700000000 * 1e9)
-	switch vsymChoice("form", 4) {
+	switch vsymChoice("form", 5) {
+	case 4: // plain seconds that are positive as a number but shorter than the clock's resolution
+		tiny := []string{"0.0000000001", "1e-10", "0.0000000009", "4e-324", "0.0", "-0"}
+		s := tiny[vsymChoice("tiny", len(tiny))]
+		d, err := parseStep(lokiapi.NewOptPrometheusDuration(lokiapi.PrometheusDuration(s)), t0, t0.Add(time.Hour))
+		vsymAssert(err != nil || d > 0, "the step in effect is strictly positive, or the flag is rejected")
 	case 0: // plain seconds, symbolic
 		n := vsymInt64("seconds")
 		bound := int64(64)
